@@ -569,6 +569,88 @@ def task_driver_tape(ctx):
     ctx.assume_note("driver_tape: one molecule, 2x2 density, one pass of the loop body (the body does not depend on the iteration number); callees replaced by fresh values")
 
 
+def task_backward_slots(ctx):
+    """O4b (name flow, from the AST of the real SCF.forward / SCF.backward): autograd hands the k-th value returned by backward to
+    the k-th argument of forward.  The chain  forward argument -> position in ctx.save_for_backward -> local name in backward's
+    unpacking of ctx.saved_tensors -> slot number in the list backward enumerates -> position of grads[slot] in the returned
+    tuple  must be the identity on the eight differentiable arguments, every one of them must have a slot, and backward must
+    return as many values as forward has arguments.  A rebinding of several names at once must keep their order."""
+    import seqm.seqm_functions.scf_loop as S_
+
+    ctx.under_contract("seqm.seqm_functions.scf_loop:SCF.forward", note="argument order and ctx.save_for_backward (AST)")
+    ctx.under_contract("seqm.seqm_functions.scf_loop:SCF.backward", note="slot order of the returned gradients (AST name flow)")
+    rep = []
+
+    def rp():
+        if not rep:
+            rep.append(_quiet(replay_scf_adjoint))
+        return rep[0]
+
+    ftree = ast.parse(textwrap.dedent(inspect.getsource(S_.SCF.forward))).body[0]
+    btree = ast.parse(textwrap.dedent(inspect.getsource(S_.SCF.backward))).body[0]
+    fargs = [a.arg for a in ftree.args.args][1:]  # without ctx
+    saved = None
+    for n in ast.walk(ftree):
+        if isinstance(n, ast.Call) and isinstance(n.func, ast.Attribute) and n.func.attr == "save_for_backward":
+            saved = [a.id if isinstance(a, ast.Name) else None for a in n.args]
+    unpack = None
+    rebinds = []
+    enum_list = None
+    ret = None
+    for n in ast.walk(btree):
+        if isinstance(n, ast.Assign) and isinstance(n.value, ast.Attribute) and n.value.attr == "saved_tensors" and isinstance(n.targets[0], ast.Tuple):
+            unpack = [e.id if isinstance(e, ast.Name) else None for e in n.targets[0].elts]
+        if isinstance(n, ast.Assign) and isinstance(n.targets[0], ast.Tuple) and isinstance(n.value, ast.GeneratorExp) and isinstance(n.value.generators[0].iter, ast.Tuple):
+            rebinds.append(([e.id for e in n.targets[0].elts if isinstance(e, ast.Name)], [e.id for e in n.value.generators[0].iter.elts if isinstance(e, ast.Name)]))
+        if isinstance(n, ast.For) and isinstance(n.iter, ast.Call) and getattr(n.iter.func, "id", None) == "enumerate" and isinstance(n.iter.args[0], ast.List) and enum_list is None:
+            enum_list = [e.id if isinstance(e, ast.Name) else None for e in n.iter.args[0].elts]
+            # the slot number used for element i: grads[i + c] / gvind.append(i + c)
+            offs = {c.right.value for c in ast.walk(n) if isinstance(c, ast.BinOp) and isinstance(c.op, ast.Add) and isinstance(c.left, ast.Name) and c.left.id == n.target.elts[0].id and isinstance(c.right, ast.Constant)}
+            enum_off = offs.pop() if len(offs) == 1 else None
+    for n in btree.body[::-1]:
+        if isinstance(n, ast.Return) and isinstance(n.value, ast.Tuple):
+            ret = n.value.elts
+            break
+    if None in (saved, unpack, enum_list, ret) or enum_off is None:
+        ctx.error("backward_slots.anchor", "could not find save_for_backward / saved_tensors unpacking / the enumerated list / the returned tuple (found: %r)" % ([x is not None for x in (saved, unpack, enum_list, ret)],))
+        return
+    ctx.prove("backward_slots.backward-returns-one-value-per-forward-argument", E.const(len(ret) == len(fargs)))
+    ctx.prove("backward_slots.saved-tensors-are-unpacked-in-the-order-they-were-saved", E.const(len(saved) == len(unpack)))
+    for tg, src in rebinds:
+        (ctx.ok if tg == src else ctx.fail)("backward_slots.rebinding(%s)-keeps-the-order" % ",".join(tg), "ast" if tg == src else "targets %r <- sources %r" % (tg, src), **({} if tg == src else {"replay": rp()}))
+    # which forward tensor a backward local name denotes
+    def forward_name(local):
+        if local not in unpack:
+            return None
+        nm = saved[unpack.index(local)]
+        return nm
+    slots = {}
+    for i, nm in enumerate(enum_list):
+        slots[i + enum_off] = forward_name(nm)
+    differentiable = [forward_name(nm) for nm in enum_list]
+    covered = set()
+    for k, e in enumerate(ret):
+        if isinstance(e, ast.Subscript) and isinstance(e.value, ast.Name) and e.value.id == "grads" and isinstance(e.slice, ast.Constant):
+            j = e.slice.value
+            want = fargs[k] if k < len(fargs) else None
+            got = slots.get(j)
+            covered.add(got)
+            name = "backward_slots.returned[%d]=grads[%d]-is-the-gradient-of-forward-argument-%s" % (k, j, want)
+            if got == want:
+                ctx.ok(name, "ast-name-flow")
+            else:
+                ctx.fail(name, "slot %d of the enumerated list denotes forward's %r, but position %d of the returned tuple is received by forward's %r" % (j, got, k, want), replay=rp(), witness_class="gradient-slots-permuted")
+        elif isinstance(e, ast.Constant) and e.value is None:
+            continue
+        else:
+            ctx.error("backward_slots.returned[%d]" % k, "unrecognised expression %s" % ast.unparse(e))
+    missing = [d for d in differentiable if d not in covered]
+    (ctx.ok if not missing else ctx.fail)("backward_slots.every-differentiated-input-has-a-slot", "ast-name-flow" if not missing else "no returned slot for %r" % missing)
+    first = fargs[: len(enum_list)]
+    (ctx.ok if sorted(first) == sorted(d for d in differentiable if d) else ctx.fail)("backward_slots.the-enumerated-inputs-are-forward's-leading-arguments", "ast-name-flow" if sorted(first) == sorted(d for d in differentiable if d) else "%r vs %r" % (first, differentiable))
+    ctx.assume_note("backward_slots: name flow only (which tensor sits in which slot); the VALUES placed in grads[...] are covered by additive_term_backward / scf_adjoint_inputs and, for the SCF adjoint itself, not at all")
+
+
 def _quiet(fn):
     import contextlib, io
 
@@ -579,5 +661,5 @@ def _quiet(fn):
             return {"reproduced": False, "error": repr(exc)[:300]}
 
 
-TASKS_QUICK = ["additive_term_backward", "parameter_aliasing", "scf_adjoint_inputs", "mixer_tape", "driver_tape"]
+TASKS_QUICK = ["additive_term_backward", "parameter_aliasing", "scf_adjoint_inputs", "backward_slots", "mixer_tape", "driver_tape"]
 TASKS_THOROUGH = TASKS_QUICK
